@@ -104,8 +104,9 @@ struct Variant {
 }
 
 /// Option sets of a run: 0 default, 1 a subset in two populations (order unlike the column order),
-/// 2 --strict, 3 projection of everybody, 4 subset + projection, 5 subset + --strict.
-const N_CONFIGS: usize = 6;
+/// 2 --strict, 3 projection of everybody, 4 subset + projection, 5 subset + --strict, 6 and 7 the two
+/// projections printed with 17 decimals (every bit of the sums shows).
+const N_CONFIGS: usize = 8;
 
 fn config_args(config: usize, n_samples: usize) -> Vec<String> {
     let list = if n_samples >= 5 {
@@ -126,9 +127,15 @@ fn config_args(config: usize, n_samples: usize) -> Vec<String> {
             a.extend(["-p".to_string(), "1,1".to_string()]);
             a
         }
-        _ => {
+        5 => {
             let mut a = subset();
             a.push("--strict".into());
+            a
+        }
+        6 => vec!["-p".into(), (n_samples / 3).max(1).to_string(), "--precision".into(), "17".into()],
+        _ => {
+            let mut a = subset();
+            a.extend(["-p".to_string(), "1,1".to_string(), "--precision".to_string(), "17".to_string()]);
             a
         }
     }
@@ -186,7 +193,7 @@ fn observe_orders(d: usize) -> (usize, usize, bool) {
 
 pub fn run(tier: Tier) -> i32 {
     let mut rep = Report::new("C12", tier, "exploration");
-    rep.rule = "configuration grid, enumerated completely: call sets {5 small incl. one with 300 samples, 300 contigs, 300-byte names and positions up to 2^31-1, missing / multiallelic / two contigs / extra fields / monomorphic records / records without FORMAT or without a GT key, one of 2 600 records (~150 KiB, several 64 KiB BGZF blocks)} x container {vcf, vcf.gz, bcf, raw bcf} x BGZF layout (12: single block, one record per block, 1/7/64/4096/65280-byte blocks, empty block in front/middle/end, stored blocks - for the large call set with first blocks of 8, 16, 32 and 64 KiB compressed size -, no EOF marker) x transport {path, stdin} (small call sets also: real pipe, FIFO by path, /dev/stdin; and ten file names) x --threads 1..16 x 2 repetitions (fresh process = fresh hash seeds) x 2 sample configurations, and four further option sets (--strict, projection, subset + projection, subset + --strict) x every layout and transport x --threads 1 and 3 (thorough: every count); every run's stdout and exit status must equal the canonical run (plain VCF by path, 1 thread). L1: the same containers through the real reader construction with set_threads, and the hash-order observer. Non-trivial = compressed multi-block container with >=2 threads, or stdin transport.".into();
+    rep.rule = "configuration grid, enumerated completely: call sets {5 small incl. one with 300 samples, 300 contigs, 300-byte names and positions up to 2^31-1, missing / multiallelic / two contigs / extra fields / monomorphic records / records without FORMAT or without a GT key, one of 2 600 records (~150 KiB, several 64 KiB BGZF blocks)} x container {vcf, vcf.gz, bcf, raw bcf} x BGZF layout (12: single block, one record per block, 1/7/64/4096/65280-byte blocks, empty block in front/middle/end, stored blocks - for the large call set with first blocks of 8, 16, 32 and 64 KiB compressed size and one of exactly 65 536 bytes on disk -, no EOF marker) x transport {path, stdin} (small call sets also: real pipe, FIFO by path, /dev/stdin; and ten file names) x --threads 1..16 x 2 repetitions (fresh process = fresh hash seeds) x 2 sample configurations, and six further option sets (--strict, projection, subset + projection, subset + --strict, the two projections at --precision 17) x every layout and transport x --threads 1 and 3 (thorough: every count); every run's stdout and exit status must equal the canonical run (plain VCF by path, 1 thread). L1: the same containers through the real reader construction with set_threads, and the hash-order observer. Non-trivial = compressed multi-block container with >=2 threads, or stdin transport.".into();
     let scratch = Scratch::new("c12");
     let smalls = small_call_sets();
     let big = big_call_set();
@@ -202,10 +209,10 @@ pub fn run(tier: Tier) -> i32 {
                 vec![Layout::Single]
             } else if is_big {
                 if tier.thorough() {
-                    vec![Layout::Single, Layout::Fixed(65280), Layout::Fixed(4096), Layout::PerUnit, Layout::EmptyMiddle(4096), Layout::NoEof(65280), Layout::Stored(8200), Layout::Stored(16400), Layout::Stored(32800), Layout::Stored(65280)]
+                    vec![Layout::Single, Layout::Fixed(65280), Layout::Fixed(4096), Layout::PerUnit, Layout::EmptyMiddle(4096), Layout::NoEof(65280), Layout::Stored(8200), Layout::Stored(16400), Layout::Stored(32800), Layout::Stored(65280), Layout::MaxFirst]
                 } else {
                     // stored (incompressible) blocks make the *compressed* size of the first block cross 8, 16, 32 and 64 KiB
-                    vec![Layout::Single, Layout::Fixed(65280), Layout::Fixed(4096), Layout::PerUnit, Layout::Stored(8200), Layout::Stored(16400), Layout::Stored(32800), Layout::Stored(65280)]
+                    vec![Layout::Single, Layout::Fixed(65280), Layout::Fixed(4096), Layout::PerUnit, Layout::Stored(8200), Layout::Stored(16400), Layout::Stored(32800), Layout::Stored(65280), Layout::MaxFirst]
                 }
             } else {
                 all_layouts()
@@ -713,7 +720,7 @@ pub fn run(tier: Tier) -> i32 {
 
 fn layout_by_name(name: &str) -> Option<Layout> {
     let mut all = all_layouts();
-    all.extend([Layout::EmptyMiddle(4096), Layout::NoEof(65280), Layout::Stored(8200), Layout::Stored(16400), Layout::Stored(32800), Layout::Stored(65280)]);
+    all.extend([Layout::EmptyMiddle(4096), Layout::NoEof(65280), Layout::Stored(8200), Layout::Stored(16400), Layout::Stored(32800), Layout::Stored(65280), Layout::MaxFirst]);
     all.into_iter().find(|l| l.name() == name)
 }
 
